@@ -399,10 +399,37 @@ def kind_guards(ctx) -> None:
     ctx.floor('C14.kind-guard', n, 2)
 
 
+def alias_rule(ctx) -> None:
+    """Row filters are keyed by the bare table: the scan of that table reached through a reference (alias, self-join)
+    must not inherit them.  visit_reference brackets its descent with a marker, visit_table consults it."""
+    prog = ctx.prog
+    vt = prog.func(f'{PARSER}:Visitor.visit_table')
+    defs = [s for s in core.walk_local(vt.node) if isinstance(s, ast.Assign) and core.src(s.targets[0]) == 'predicate' and '.predicate' in core.src(s.value)]
+    ok = False
+    marker = None
+    for d in defs:
+        conds = [core.src(t) for t, pol in cfg.guards(d, vt.node, siblings=False)]
+        if isinstance(d.value, ast.IfExp):
+            conds.append(core.src(d.value.test))
+        for c in conds:
+            if c.startswith('not self.context.'):
+                ok, marker = True, c[len('not self.context.'):]
+    ctx.check(ok, 'C14.alias', vt, 'visit_table offers the row filter of the bare table only when the table is not scanned under a reference', defs[0] if defs else vt.node, key='visit_table:alias-guard')
+    vr = prog.func(f'{PARSER}:Visitor.visit_reference')
+    graph = cfg.CFG(vr.node)
+    sup = [s for s in graph.statements() if any(core.call_tail(c) == 'visit_reference' and isinstance(c.func, ast.Attribute) and core.src(c.func.value) == 'super()' for c in cfg.header_calls(s))]
+    incs = [s for s in graph.statements() if isinstance(s, ast.AugAssign) and isinstance(s.op, ast.Add) and marker and core.src(s.target) == f'self.context.{marker}']
+    decs = [s for s in graph.statements() if isinstance(s, ast.AugAssign) and isinstance(s.op, ast.Sub) and marker and core.src(s.target) == f'self.context.{marker}']
+    in_finally = all(any(isinstance(a, ast.Try) and d in a.finalbody for a in core.ancestors(d)) for d in decs) and bool(decs)
+    ok2 = len(sup) == 1 and len(incs) == 1 and graph.dominates(incs[0], sup[0]) and in_finally
+    ctx.check(ok2, 'C14.alias', vr, 'visit_reference marks the descent into the referenced source (set before, reset in finally)', vr.node, key='visit_reference:bracket')
+
+
 def run(ctx) -> None:
     prog = ctx.prog
     tenv = types.TypeEnv(prog)
     registration(ctx)
+    alias_rule(ctx)
     n = shared.r_element(ctx, [
         f'{PARSER}:Container.Context.Tables.select', f'{SERIES}:Predicate.Factors.__init__',
         f'{SERIES}:Comparison.factors', f'{SERIES}:Not.factors',
